@@ -459,6 +459,76 @@ def run(r):
                             "scratch_changed": s.get("scratch_changed"), "descriptors": [s.get("fd_before"), s.get("fd_after")],
                             "children": [s.get("children_before"), s.get("children_after")], "violation_keys": sorted(seen)}
 
+    # ---- search + C: sessions - ONE compiler reused over snippets, failing ones first
+    nsess = 1300 if quick else 12000
+    rc, out, err2 = run_bin("c20", ["session", nsess, scratch + "-sess"], seed=r.seed, timeout=3000)
+    slines = json_lines(out)
+    ssum = [x for x in slines if x.get("k") == "summary"]
+    if rc != 0 or not ssum:
+        r.broken_obligation("search-harness:session", "c20 session failed to run", (out + err2)[-2000:])
+        ssum = [{}]
+    ss = ssum[0]
+    sviol = [x for x in slines if x.get("k") == "violation"]
+    sseen = {}
+    for v in sviol:
+        parts = v["key"].split(":")
+        prefix = ":".join(parts[:2]) if parts[0].endswith("state-not-restored") else parts[0]
+        if prefix in sseen:
+            continue
+        sseen[prefix] = v["key"]
+        r.violation(v["key"], "one compiler reused over snippets (mode %s): after the history below %s - %s" % (v["mode"], prefix, v["calls"][:300]),
+                    {"history": v["program"], "snippet": v["snippet"], "mode": v["mode"], "detail": v["calls"], "cmd": "c20 session %d" % nsess},
+                    theorem="C20_snippet_restores_state")
+    if "┌╴" in err2:
+        r.violation("session/stderr-written-while-compiling", "a reused compiler wrote a trace box to stderr while compiling", {"stderr": err2[:400]})
+    # the model of the saved state against the compiler's state after every rejected snippet
+    def cword(cls):
+        parts = cls.split("/")
+        leaf = "(WParen [WLeaf false])" if parts[-1] == "paren" else "(WLeaf false)"
+        m = parts[0]
+        if m in ("fill", "fill-sided"):
+            return "(WFill %s (WLeaf true))" % leaf
+        if m == "fill-nested":
+            return "(WFill (WFill %s (WLeaf true)) (WLeaf true))" % leaf
+        if m == "fill-in-try":
+            return "(WTry [WParen [WFill %s (WLeaf true)]; WLeaf true])" % leaf
+        if m == "try-in-fill":
+            return "(WFill (WTry [%s; WLeaf true]) (WLeaf true))" % leaf
+        if m == "fill-value":
+            return "(WFill (WLeaf true) %s)" % leaf
+        if m in ("try", "try-handler"):
+            return "(WTry [%s; WLeaf true])" % leaf
+        if m == "code-macro-bad-output":
+            return "(WSeq [WLeaf true; WCodeMacro false (WLeaf true)])"
+        if m == "code-macro-too-deep":
+            return "(WSeq [WLeaf true; nest_macro 14 (WLeaf true)])"
+        return "(WSeq [%s])" % leaf
+    def cst(t):
+        return "(CS %s %s %s %d)" % (t[0], str(t[1]).lower(), str(t[2]).lower(), t[3])
+    states = {}
+    for x in slines:
+        if x.get("k") == "state":
+            states.setdefault((x["class"], tuple(x["before"]), tuple(x["after"])), x)
+    skeys = sorted(states)
+    text = ("From Coq Require Import List NArith Bool. Import ListNotations.\nFrom UV Require Import Model.Node Model.Gate.\n"
+            "Eval vm_compute in (failing_states 0%%N [\n%s\n]).\n" % ";\n".join("(%s, %s, %s)" % (cst(k[1]), cword(k[0]), cst(k[2])) for k in skeys))
+    st_bad = []
+    if skeys:
+        rc2, o = coq_eval("c20_states", text, 600)
+        if rc2 != 0:
+            r.broken_obligation("tie-eval:states", "Coq evaluation of the compiler-state cases failed", o[-1500:])
+        else:
+            st_bad = [states[skeys[i]] for i in coq_ints(o)]
+    if st_bad:
+        r.broken_obligation("tie:Gate.v~compiler-state", "model and implementation disagree on the compiler's saved state after a rejected snippet (%d of %d cases), e.g. %s"
+                            % (len(st_bad), len(skeys), json.dumps(st_bad[0], ensure_ascii=False)), json.dumps(st_bad[:5], ensure_ascii=False))
+    r.coverage["sessions"] = {"kind": "search+C", "sessions": ss.get("sessions"), "steps": ss.get("steps"), "failing_snippets": ss.get("failing_snippets"),
+                              "probes": ss.get("probes"), "rejected_steps": ss.get("rejected_steps"), "compared_with_fresh": ss.get("compared_with_fresh"),
+                              "classes": ss.get("classes"), "state_cases": len(skeys), "state_mismatches": len(st_bad),
+                              "state_changed_cases": sum(1 for k in skeys if k[1] != k[2]), "violation_keys": sorted(sseen.values())}
+    for x in [x for x in slines if x.get("k") == "state"][:1]:
+        r.sample({"session_snippet": x["src"], "class": x["class"], "compiler_state_before": x["before"], "after": x["after"]})
+
     # ---- regression corpus: the inputs of the repaired findings (fix commits 1cead72, d78a439, 06086d8),
     #      compiled in editor mode with the recorder attached: nothing may be folded, printed or opened
     os.makedirs(scratch + "-reg", exist_ok=True)
@@ -518,7 +588,7 @@ def run(r):
     for d in glob.glob(scratch + "-*"):
         shutil.rmtree(d, ignore_errors=True)
 
-    r.coverage["evaluations"] = s.get("compiles", 0) + sum(x["tries"] * 3 for x in ops) + nodes
+    r.coverage["evaluations"] = s.get("compiles", 0) + sum(x["tries"] * 3 for x in ops) + nodes + (ss.get("steps") or 0)
     r.coverage["distinct_nontrivial"] = (s.get("nonempty_logs") or 0) + sum(1 for n_, ms, x in obs if ms) + true_pure
     r.coverage["rule"] = ("search: %d system-function snippets x %d syntactic contexts (top level, functions, fills, un/under/anti/obverse, index and code macros, "
                           "comptime, modules, imports, data definitions, recursion, loops) x 4 pre-evaluation modes, each compiled with the recording backend attached; "
